@@ -54,7 +54,9 @@ def main():
                 meta["demo_failure_excerpt"] = "\n".join([l for l in out.splitlines() if l.strip()][:8])
                 patch = run("git diff -- '*.go' ':!*_test.go'", cwd=WT)[1]
                 run("git checkout -- . && git clean -fdq", cwd=WT)
-                meta["needs_to_manifest"] = NEEDS.get(sid, "")
+                nd = NEEDS.get(sid, {})
+                meta["change"] = nd.get("change", "")
+                meta["needs_to_manifest"] = nd.get("needs", "")
                 meta["what_i_ran"] = ["scratch worktree of /repo HEAD: go test -run TestSeededDemo (clean)", "git apply; go build; go test -skip TestSeededDemo ./... (existing suite); go test -run TestSeededDemo (must fail)"]
                 write(sid, meta, patch, demo)
                 ok = meta["demo_passes_without_change"] and meta["compiles"] and meta["existing_suite_passes_with_change"] and meta["demo_fails_with_change"]
